@@ -29,7 +29,8 @@ META = {
         " Round 7: TABLE[key] with a key computed from a regex group finds a key for every enumerated member of the group's language; every consumed section/lot reference registers a number (callers index [0]); decompiled config text consists of typed settings only; re-raising the same exception type is not a new exception."
         ' Round 8: no ordering / arithmetic on the optional numbers (twp_num / rge_num / sec_num) without a None test; reduce() / max() / min() not on a possibly empty sequence; every OCR look-alike the pattern captures is converted before an unguarded int().'
         ' Round 9: a recursive call changes something; float() on an acreage is guarded (the pattern accepts empty brackets); a result list filtered after the scan cannot come back empty to an unguarded [0].'
-        ' Round 10: int() under an `.isdecimal()` test counts as guarded; config value validation is followed into the helper the value is handed to.'),
+        ' Round 10: int() under an `.isdecimal()` test counts as guarded; config value validation is followed into the helper the value is handed to.'
+        ' Round 11: an undocumented exception type behind a condition is undecided (reachability of an invariant check is not decided), unconditional ones are violations; segment() is followed with an empty match list for every layout.'),
     'assumptions': [
         "methods of str/list/dict on well-typed receivers do not raise; re does not raise on valid patterns; recursion depth",
     ],
@@ -563,8 +564,7 @@ def _int_sites(ctx):
                                     if sub[0] in rx.SINGLE:
                                         accepted |= {ch for ch in 'SsOoIiLl]|BbZzGgqQ' if rx.char_matches(sub[0], sub[1], ch, ocr.flags)}
                     tbl = ctx.repo.func('unpackers:ocr_scrub_alpha_to_num')
-                    mapped = {x.args[0].value for x in walk_local(tbl.node) if isinstance(x, ast.Call) and isinstance(x.func, ast.Attribute)
-                              and x.func.attr == 'replace' and x.args and isinstance(x.args[0], ast.Constant)}
+                    mapped = set(common.char_table(ctx, tbl))
                     left = sorted(accepted - mapped)
                     ctx.check(not left, 'EXC', f"{fi.qualname}: {norm(c)[:40]} takes digits only",
                               'every look-alike character of the OCR pattern is converted first',
@@ -622,11 +622,20 @@ def _raises(ctx):
                 caught = {(dotted(t) or '').split('.')[-1] for t in (h.type.elts if isinstance(h.type, ast.Tuple) else [h.type])}
                 if exc is None or typ in caught:
                     ok = True
-            ctx.check(ok, 'EXC', f"{where}: raise {typ}", 'documented exception type',
-                      f"`{norm(r)[:70]}` raises {typ}, which is not one of the documented rejection types "
-                      f"{sorted(DOCUMENTED)}", key=f"EXC|{where}|raise|{typ}", where=common.loc(fi, r))
-            # a raise must be an argument / state check: guarded by a condition
             gs = guards(r)
+            if not ok and (gs or facts_at(r)):
+                # an undocumented type behind a condition: whether any input can make the condition true is
+                # not decided here (a consistency check on computed state - `if len(out) != len(self): raise
+                # RuntimeError` - can never fire; a value check on the input can)
+                ctx.undecided('EXC', f"{where}: raise {typ}",
+                              f"`{norm(r)[:60]}` is not a documented rejection type, but it stands behind "
+                              f"`{norm((gs or [(None, None)])[0][0])[:50] if gs else 'an earlier test'}`; whether that can hold on a reachable "
+                              f"state is not decided")
+            else:
+                ctx.check(ok, 'EXC', f"{where}: raise {typ}", 'documented exception type',
+                          f"`{norm(r)[:70]}` raises {typ}, which is not one of the documented rejection types "
+                          f"{sorted(DOCUMENTED)}", key=f"EXC|{where}|raise|{typ}", where=common.loc(fi, r))
+            # a raise must be an argument / state check: guarded by a condition
             in_except = False
             p = parent(r)
             while p is not None and not isinstance(p, (ast.FunctionDef, ast.AsyncFunctionDef)):
@@ -673,37 +682,9 @@ def _at_least_one_tract(ctx):
     ctx.tri(len(calls) == 1 and not guards(calls[0]), len(calls) == 1 and bool(guards(calls[0])), 'SINK',
             '_parse_copyall stages unconditionally',
             detail_bad="copy_all staging became conditional: a chunk can end with zero tracts", key="SINK|_parse_copyall|uncond")
-    # chunker: at least one block
-    seg = ctx.repo.func('PLSSChunker.segment')
-    helpers = [enclosing_stmt(c) for c in walk_local(seg.node) if isinstance(c, ast.Call)
-               and (dotted(c.func) or '').startswith('self._segment_twprge_')]
-    if len(helpers) != 2:
-        raise AnalysisError("PLSSChunker.segment: helper calls not found")
-    passed = {norm(c.value.args[1]) for c in helpers if isinstance(c, ast.Expr)}
-    guard_ok = False
-    for n in seg.node.body:
-        if isinstance(n, ast.If) and any(isinstance(s, ast.Return) for s in n.body) \
-                and any(norm(s) == 'self.blocks.append(text)' for s in n.body):
-            disj = [norm(v) for v in n.test.values] if isinstance(n.test, ast.BoolOp) and isinstance(n.test.op, ast.Or) else [norm(n.test)]
-            if any(d in (f"not {m}", f"len({m}) == 0") for d in disj for m in passed):
-                guard_ok = True
-    # or: the helpers are called under a condition that requires the list to be non-empty
-    def needs_truthy(call):
-        for t, pol in guards(call):
-            conj = [norm(v) for v in t.values] if isinstance(t, ast.BoolOp) and isinstance(t.op, ast.And) else [norm(t)]
-            disj = [norm(v) for v in t.values] if isinstance(t, ast.BoolOp) and isinstance(t.op, ast.Or) else [norm(t)]
-            if pol and any(c in passed or c in {f"len({m}) > 0" for m in passed} for c in conj):
-                return True
-            if not pol and any(d in {f"not {m}" for m in passed} for d in disj):
-                return True
-        return False
-    if helpers and all(needs_truthy(h) for h in helpers):
-        guard_ok = True
-    ctx.check(guard_ok, 'SINK', 'the chunker keeps the whole text as one block when no Twp/Rge qualifies',
-              f"`not {sorted(passed)[0] if passed else '?'}` -> blocks.append(text); return",
-              "the segment helpers can run on an empty match list (the early return no longer tests the list they "
-              "receive): zero blocks -> zero ChunkParsers -> a PLSSDesc with no tract at all",
-              key="SINK|PLSSChunker.segment|nonempty", where=common.loc(seg, helpers[0]))
+    # chunker: at least one block - segment() is followed, for every layout, with an empty match list
+    from .c04 import _segment_without_twprge
+    ctx.attempt(_segment_without_twprge)
     for h in ('PLSSChunker._segment_twprge_first', 'PLSSChunker._segment_twprge_last'):
         f2 = ctx.repo.func(h)
         loops = [n for n in f2.node.body if isinstance(n, ast.For) and 'enumerate(matches)' in norm(n.iter)]
@@ -844,14 +825,14 @@ def _kwargs(ctx):
     # the conversion may live in a helper the value is handed to (`value = _convert_value(attribute, value, ...)`)
     handed = False
     for c in walk_local(s.node):
-        if isinstance(c, ast.Call) and any(isinstance(a, ast.Name) and a.id == 'value' for a in c.args):
+        if isinstance(c, ast.Call) and any(isinstance(a, ast.Name) and a.id in ('value', 'raw_value', 'val') for a in c.args):
             nm = dotted(c.func) or ''
             if nm.split('.')[-1] in ('str_to_value', 'setattr', 'verify_default_ns', 'verify_default_ew', 'isinstance'):
                 continue
             node = flow.RESOLVER(nm, c, s.node) if flow.RESOLVER and nm else None
             if node is not None:
                 params = [a.arg for a in node.args.args if a.arg not in ('self', 'cls')]
-                pos = [i for i, a in enumerate(c.args) if isinstance(a, ast.Name) and a.id == 'value']
+                pos = [i for i, a in enumerate(c.args) if isinstance(a, ast.Name) and a.id in ('value', 'raw_value', 'val')]
                 txt_ = ' '.join(norm(x) for x in ast.walk(node) if isinstance(x, ast.stmt))
                 if pos and pos[0] < len(params) and params[pos[0]] != 'value':
                     import re as _re
